@@ -169,7 +169,10 @@ class MBoxFolderHandler(FolderHandler):
 
     def prepare(self):
         self.mbox = mbox(self.getfspath(), create=False)
-        super().prepare()
+        try:
+            super().prepare()
+        finally:
+            self.mbox.close()
 
     def getargflag(self):
         return "/MBOX-MESSAGE/"
